@@ -1822,6 +1822,6 @@ pub fn run() {
     let (n, max_len) = t.pick((12_000usize, 400usize), (400_000usize, 400usize));
     par_cases("hist-core", n, move |r, i| run_history("hist-core", i, r, false, max_len));
     par_cases("hist-named", n, move |r, i| run_history("hist-named", i, r, true, max_len));
-    par_cases("hist-large", t.pick(60usize, 3_000usize), move |r, i| run_history_large("hist-large", i, r));
+    par_cases("hist-large", t.pick(60usize, 600usize), move |r, i| run_history_large("hist-large", i, r));
     c.extra("exhaustive", json!(false));
 }
